@@ -2,6 +2,7 @@ import AcVerif.Cost
 import AcVerif.Fold
 import AcVerif.Engine.Overlap
 import AcVerif.Proofs.CostBounds
+import AcVerif.Proofs.CostOverlapFacts
 /-!
 # C19 – bounded work per haystack byte
 
@@ -206,6 +207,13 @@ theorem C19_overlap_cost (k : MatchKind) (P : List (List α)) (sk : StartKind) (
     r.2.fails + odepth r.1 + cost.transitions ≤ cost.fails + sid.depth + r.2.transitions :=
   ovlCost_bounds k (patSet k P) _ g (fun _ _ _ => rfl) hay s e he pre anch _ sid at_ cost
     (Nat.le_refl _)
+
+/-- the per-call counters the driver reports (`CostP.tryOvlCost`, compared call by call with the
+instrumented real code) are ghost state of exactly `try_find_overlapping_fwd` -/
+theorem C19_overlap_call_result (k : MatchKind) (Q : PatSet α) (A : Aut (St α) α) (g : α → α)
+    (pre : Option (Prefilter α)) (i : Input α) (st : OState (St α)) :
+    (tryOvlCost k Q A g pre i st).map (·.1) = tryFindOverlappingFwd A pre i st :=
+  tryOvlCost_fst k Q A g pre i st
 
 /-! ## `hops` is coherent with `Ideal.next` -/
 
